@@ -12,7 +12,7 @@ pub(crate) fn mk_subrule() -> SubRule {
 }
 pub(crate) fn bin(m: Option<ModKind>) -> Option<bool> { if m == POS { Some(true) } else if m == NEG { Some(false) } else { None } }
 
-//% props=C04 tier=thorough kind=P timeout=1500 pair=SubRule::match_modifiers,SubRule::match_feat_mod,SubRule::match_node_mod,SubRule::match_node,SubRule::match_seg_kind clause="M1: a binary matrix matches iff every named feature / node has the named value; absent sub-node matches neither + nor -"
+//% props=C04 tier=thorough kind=P timeout=1800 mem=44 pair=SubRule::match_modifiers,SubRule::match_feat_mod,SubRule::match_node_mod,SubRule::match_node,SubRule::match_seg_kind clause="M1: a binary matrix matches iff every named feature / node has the named value; absent sub-node matches neither + nor -"
 #[kani::proof]
 #[kani::unwind(28)]
 fn k3_match_modifiers_binary() {
